@@ -194,6 +194,8 @@ impl<'a, 'tcx> Cx<'a, 'tcx> {
                     let _ = write!(s, ",\"v\":{}", bits);
                 }
             }
+        } else if let Some(vn) = self.const_unit_variant(cst, ty) {
+            let _ = write!(s, ",\"variant\":{}", js(&vn));
         } else if let Some(b) = self.const_bytes(cst, ty, c.span) {
             let _ = write!(s, ",\"bytes\":{}", js(&hex(b)));
         } else if let Some(v) = self.const_ref_scalar(cst, ty, c.span) {
@@ -201,6 +203,30 @@ impl<'a, 'tcx> Cx<'a, 'tcx> {
         }
         s.push('}');
         s
+    }
+
+    /// constants of field-less enum type (`Ordering::SeqCst`, `Kind::Tree`): the variant name
+    fn const_unit_variant(&self, cst: Const<'tcx>, ty: Ty<'tcx>) -> Option<String> {
+        let tcx = self.tcx;
+        let adt = match ty.kind() {
+            ty::Adt(adt, _) if adt.is_enum() && adt.is_payloadfree() => *adt,
+            _ => return None,
+        };
+        if let Const::Unevaluated(uv, _) = cst {
+            if uv.args.iter().any(|a| a.has_param()) {
+                return None;
+            }
+        }
+        let si = cst.try_eval_scalar_int(tcx, self.env)?;
+        let bits = si.to_bits(si.size());
+        for (vi, d) in adt.discriminants(tcx) {
+            // compare modulo the scalar's width (discriminants are stored truncated)
+            let mask = if si.size().bits() >= 128 { u128::MAX } else { (1u128 << si.size().bits()) - 1 };
+            if d.val & mask == bits {
+                return Some(adt.variant(vi).name.to_string());
+            }
+        }
+        None
     }
 
     fn const_bytes(&self, cst: Const<'tcx>, ty: Ty<'tcx>, sp: Span) -> Option<&'tcx [u8]> {
